@@ -33,7 +33,7 @@ def exact_pair(ck, c1, c2, scale=1.0, off=0j):
     except Exception as e:      # noqa
         got = e
     size = (max(abs(w) for w in z) + 1)
-    if isinstance(got, Exception) or any(abs(g - e) > 1e-12 * size for g, e in zip(got, exp)):
+    if isinstance(got, Exception) or any(not (abs(g - e) <= 1e-12 * size) for g, e in zip(got, exp)):
         kinds = []
         for c in (c1, c2):
             P = c['P']
@@ -84,7 +84,7 @@ def arc_case(ck, c):
         got = arc.bbox()
     except Exception as e:      # noqa
         got = e
-    if isinstance(got, Exception) or any(abs(g - e) > 1e-6 * size for g, e in zip(got, exp)):
+    if isinstance(got, Exception) or any(not (abs(g - e) <= 1e-6 * size) for g, e in zip(got, exp)):
         ck.disagree(key='Arc.bbox/%d-extremes-crossed' % (len(c['xc']) + len(c['yc'])), site='svgpathtools/path.py:Arc.bbox',
                     what='bbox() of lattice arc %s = %r; hull of end points and critical lattice angles x%s y%s = %r' % (A, got, c['xc'], c['yc'], exp),
                     case={'arc': A}, expected=list(exp), observed=repr(got), driver='arc')
